@@ -439,7 +439,11 @@ def with_near_twin(rng, f):
 
 
 def gen_values(rng, n, style=None):
-    style = style or rng.choice(['dyadic', 'small', 'small', 'steps', 'spiky'])
+    style = style or rng.choice(['dyadic', 'small', 'small', 'steps', 'spiky', 'tiny'])
+    if style == 'tiny':
+        # four values: ties everywhere (equal maxima/minima inside one window, separated by other values)
+        pool = rng.choice([[0.0, 1.0, 3.0, 5.0], [-1.0, 0.0, 1.0, 2.0], [0.5, 1.0, 1.5, 2.0]])
+        return [rng.choice(pool) for _ in range(n)]
     if style == 'dyadic':
         return [rng.choice(DYADIC) for _ in range(n)]
     if style == 'small':
